@@ -3,6 +3,9 @@ import KvarnModel.Quoted
 namespace Drv.C19
 open Wire Drv Quoted
 
+/-- harness/src/groups/c19.rs `CLI_NAMES` -/
+def cliNames : List (List Char) := ["rec".toList, "re c".toList, "re'c".toList, "re\"c".toList, "re\\c".toList]
+
 def handle : List String → Option String
   | ["split", h] => do
     let cs ← charsOfHex h
@@ -18,5 +21,12 @@ def handle : List String → Option String
     input.map fun i =>
       let r := dispatch pingOnly i
       s!"close={boolStr r.close} data={hexOfChars r.data}"
+  -- cli <command hex> [argument hexes]: the kvarnctl binary against an instance with the plugins `cliNames`
+  | ["cli", c, l] => do
+    let cmd ← charsOfHex c
+    let args ← (← parseList l).mapM charsOfHex
+    let toks := split (kvarnctl cmd args)
+    if cliNames.contains (toks.headD []) then pure s!"exit=0 seen={listStr (toks.map hexOfChars)}"
+    else pure "exit=1 seen=-"
   | _ => none
 end Drv.C19
